@@ -2,20 +2,22 @@
 """usage: mkmut.py <name> <file-relative-to-/repo> <<< JSON {"old": "...", "new": "..."}  (or several edits: list)
 writes /verif/mutants/<name>.diff (git diff of the edit) and reverts /repo"""
 import json, subprocess, sys
+import os
+REPO = os.environ.get("MUT_REPO", "/repo")
 name, rel = sys.argv[1], sys.argv[2]
 edits = json.load(sys.stdin)
 if isinstance(edits, dict):
     edits = [edits]
-if subprocess.run(["git", "-C", "/repo", "diff", "--quiet"]).returncode != 0:
-    sys.exit("/repo dirty")
-p = "/repo/" + rel
+if subprocess.run(["git", "-C", REPO, "diff", "--quiet"]).returncode != 0:
+    sys.exit(REPO + " dirty")
+p = REPO + "/" + rel
 s = open(p).read()
 for e in edits:
     if s.count(e["old"]) != 1:
         sys.exit(f"old text occurs {s.count(e['old'])} times: {e['old'][:60]!r}")
     s = s.replace(e["old"], e["new"])
 open(p, "w").write(s)
-d = subprocess.check_output(["git", "-C", "/repo", "diff"], text=True)
-subprocess.check_call(["git", "-C", "/repo", "checkout", "--", "."])
+d = subprocess.check_output(["git", "-C", REPO, "diff"], text=True)
+subprocess.check_call(["git", "-C", REPO, "checkout", "--", "."])
 open(f"/verif/mutants/{name}.diff", "w").write(d)
 print(f"wrote mutants/{name}.diff ({len(d.splitlines())} lines)")
